@@ -874,6 +874,84 @@ case_sd_rank(long p)
     followup(PATH, "sd-rank", 0);
 }
 
+/* number of variables of an SD file (documented maximum 5000): every route that creates one more - SDcreate, or a dimension
+   scale / dimension strings / dimension attribute, which make a coordinate variable - fails when the file is full */
+static void
+case_sd_nvars(long p)
+{
+    static const char *ROUTE[4] = {"SDcreate", "SDsetdimscale", "SDsetdimstrs", "SDsetattr on a dimension"};
+    int route = (int)(p % 4), start = p >= 4 ? H4_MAX_NC_VARS - 1 : H4_MAX_NC_VARS;
+    snprintf(g_case, sizeof g_case, "an SD file with %d data sets (maximum %d variables), then %s%s", start, H4_MAX_NC_VARS, ROUTE[route], start < H4_MAX_NC_VARS ? " twice" : "");
+    mc_set_case("%s", g_case);
+    vfs_remove_file(PATH);
+    int32 S = SDstart(PATH, DFACC_CREATE), d = 2, z = 0, first = FAIL;
+    uint8 v[2] = {1, 2};
+    for (int i = 0; i < start; i++) {
+        char nm[16];
+        snprintf(nm, sizeof nm, "v%04d", i);
+        int32 s = SDcreate(S, nm, DFNT_UINT8, 1, &d);
+        if (s == FAIL) {
+            expect(MUST_OK, 1, "SDcreate:within-5000-variables");
+            SDend(S);
+            return;
+        }
+        if (i == 0)
+            first = s;
+        else if (i == 1) {
+            SDwritedata(s, &z, NULL, &d, v);
+            SDendaccess(s);
+        }
+        else
+            SDendaccess(s);
+    }
+    int nvars = start;
+    for (int k = 0; k < (start < H4_MAX_NC_VARS ? 2 : 1); k++) {
+        /* a fresh dimension each time (data set k has its own) */
+        int32 s2 = k == 0 ? first : SDselect(S, 1), dim = SDgetdimid(s2, 0), rc;
+        int16 sc[2] = {5, 6};
+        char  what[64];
+        switch (route) {
+            case 0: {
+                int32 n = SDcreate(S, k ? "extra2" : "extra", DFNT_UINT8, 1, &d);
+                rc      = n;
+                if (n != FAIL)
+                    SDendaccess(n);
+                break;
+            }
+            case 1: rc = SDsetdimscale(dim, 2, DFNT_INT16, sc); break;
+            case 2: rc = SDsetdimstrs(dim, "label", "unit", "fmt"); break;
+            default: rc = SDsetattr(dim, "da", DFNT_INT16, 2, sc); break;
+        }
+        snprintf(what, sizeof what, "%s:variable-%d-of-%d", ROUTE[route], nvars + 1, H4_MAX_NC_VARS);
+        expect(nvars >= H4_MAX_NC_VARS ? MUST_FAIL : MUST_OK, rc == FAIL, what);
+        if (rc != FAIL)
+            nvars++;
+        if (k == 1 && s2 != FAIL)
+            SDendaccess(s2);
+    }
+    int32 nds = -1, nat = -1;
+    SDfileinfo(S, &nds, &nat);
+    if (nds > H4_MAX_NC_VARS)
+        wrapped("SDfileinfo:variables-above-maximum", nds, H4_MAX_NC_VARS);
+    SDendaccess(first);
+    expect(MUST_OK, SDend(S) == FAIL, "SDend");
+    S = SDstart(PATH, DFACC_READ);
+    if (S == FAIL)
+        mc_violation("unusable-afterwards:SDstart:sd-nvars", "%s: the file cannot be opened any more", g_case);
+    else {
+        int32 n2 = -1;
+        SDfileinfo(S, &n2, &nat);
+        if (n2 > H4_MAX_NC_VARS || n2 < start)
+            wrapped("SDfileinfo-after-reopen:variables", n2, nvars);
+        int32 s = SDselect(S, 1);
+        uint8 r[2] = {0, 0};
+        if (s == FAIL || SDreaddata(s, &z, NULL, &d, r) == FAIL || r[0] != 1 || r[1] != 2)
+            mc_violation("accepted-sds-unreadable", "%s: data set 1 cannot be read after reopen", g_case);
+        SDend(S);
+    }
+    mc_count("sd_nvars_cases", 1);
+}
+
 /* total byte size of a dataset beyond 2^31-1: the far corner cannot be addressed */
 static void
 case_sd_size(long p)
@@ -1288,8 +1366,9 @@ static const family_t FAM[] = {
     {"gr-ncomp", case_gr_ncomp, 7, 7},
     {"gr-size", case_gr_size, 6, 6},
     {"open-files", case_open_files, 10, 10},
-    {"lone-objects-highest-refs", case_lone_highref, 4, 4},
     {"h-args", case_h_args, 8, 8},
+    {"lone-objects-highest-refs", case_lone_highref, 4, 4},
+    {"sd-nvars", case_sd_nvars, 8, 8},
 };
 #define NFAM ((int)(sizeof FAM / sizeof FAM[0]))
 static long
